@@ -247,15 +247,17 @@ int main(void)
 		if (!strcmp(op, "nullses")) {	/* every entry point with a NULL session */
 			void *tab[4] = {0}; char buf[8] = {0}; UINT32 v = 0; of_ldpc_parameters_t p; memset(&p, 0, sizeof p);
 			p.nb_source_symbols = 2; p.nb_repair_symbols = 3; p.encoding_symbol_length = 4; p.N1 = 3; p.prng_seed = 1;
-			printf("\n@ok params=%s", stname(of_set_fec_parameters(NULL, (of_parameters_t *)&p)));
-			printf(" cb=%s", stname(of_set_callback_functions(NULL, src_cb, NULL, NULL)));
-			printf(" build=%s", stname(of_build_repair_symbol(NULL, tab, 2)));
-			printf(" recv=%s", stname(of_decode_with_new_symbol(NULL, buf, 0)));
-			printf(" avail=%s", stname(of_set_available_symbols(NULL, tab)));
-			printf(" finish=%s", stname(of_finish_decoding(NULL)));
-			printf(" complete=%d", (int)of_is_decoding_complete(NULL));
-			printf(" sources=%s", stname(of_get_source_symbols_tab(NULL, tab)));
-			printf(" ctrl=%s", stname(of_get_control_parameter(NULL, OF_CTRL_GET_MAX_K, &v, sizeof v)));
+			/* the library prints diagnostics on stdout: collect every answer first, then print one line */
+			const char *a1 = stname(of_set_fec_parameters(NULL, (of_parameters_t *)&p));
+			const char *a2 = stname(of_set_callback_functions(NULL, src_cb, NULL, NULL));
+			const char *a3 = stname(of_build_repair_symbol(NULL, tab, 2));
+			const char *a4 = stname(of_decode_with_new_symbol(NULL, buf, 0));
+			const char *a5 = stname(of_set_available_symbols(NULL, tab));
+			const char *a6 = stname(of_finish_decoding(NULL));
+			int a7 = (int)of_is_decoding_complete(NULL);
+			const char *a8 = stname(of_get_source_symbols_tab(NULL, tab));
+			const char *a9 = stname(of_get_control_parameter(NULL, OF_CTRL_GET_MAX_K, &v, sizeof v));
+			printf("\n@ok params=%s cb=%s build=%s recv=%s avail=%s finish=%s complete=%d sources=%s ctrl=%s", a1, a2, a3, a4, a5, a6, a7, a8, a9);
 			printf("\n"); goto next;
 		}
 		if (sscanf(line, "%*s %d", &sid) != 1 || sid < 0 || sid >= MAXS) { printf("\n@bad-op\n"); goto next; }
